@@ -477,6 +477,10 @@ func replayCase(n int, c Case, hookbin string) Result {
 				// schedules enabled, monitors unlocked) is done when it has returned
 				status, err := f.WaitHandlerReturn(q, 8*time.Second)
 				if err != nil {
+					// the handler does not return: is a hook process running (blocked, as every hook process of the fixture is)?
+					if xs := f.NewExecs(); len(xs) > 0 {
+						return bad(i, "C06/unexpected-execution", fmt.Sprintf("hook %s was executed with %v for a task that must not run the hook (%s)", xs[0].Hook, execCtxs(&xs[0]), brief([]specTask{t})))
+					}
 					return bad(i, "DIV/steer/Pick", err.Error())
 				}
 				handled[q] = status
